@@ -925,8 +925,15 @@ class Engine:
                 alt_after = (["alt-commit"] if not dont_commit else []) + ["alt-end"]
                 # recover the body from the stream: everything that is not a wrapper word at level 0 in wrapper position
                 if body_ref is None:
-                    # derive the body from the prompt lines with the levels of the received stream
-                    body_ref = [(lv, cmd) for (lv, cmd) in rows if not (lv == 0 and cmd in before + after + alt_before + alt_after)]
+                    # committing is disabled: a command that needs an intermediate commit cannot be sent, so it and its
+                    # 'commit' row (adjacent, same level in the printed patch) are left out; everything else stays
+                    body_ref = []
+                    for lv, cmd in sh:
+                        if cmd == "commit" and body_ref and body_ref[-1][0] == lv:
+                            body_ref.pop()
+                            world.probe("forced_commit_row_left_out_under_dont_commit")
+                            continue
+                        body_ref.append((lv, cmd))
                 stack, kinds = [], []
                 for lv, cmd in body_ref:
                     stack = stack[:lv] + [cmd]
@@ -1098,6 +1105,9 @@ class Engine:
             used = set()
             for _ in range(1 + ch.draw(4, "pt-n")):
                 row = "%s %s" % (words[ch.draw(len(words), "pt-w")], W.KEYS[ch.draw(len(W.KEYS), "pt-k")])
+                if ch.draw(6, "pt-free-text") == 0:
+                    # free text as generators write it: quoted, with runs of blanks, case and punctuation to be kept as is
+                    row += ch.pick([' "uplink  to  core-1"', "   padded", ' "Mixed Case;  semi"', " a\tb"], "pt-text")
                 if row in used:
                     continue
                 used.add(row)
